@@ -181,6 +181,22 @@ func (m c15) Run(ctx *core.Ctx) {
 			cs.Base, cs.HasBase = core.S(gen.ParseableBase(r)), true
 			cs.Input = core.S(gen.Reference(r))
 		}
+		if r.IntN(3) == 0 {
+			// a setter history on both URLs (reporting must not change what any later call does either); hostile values,
+			// rejected values, and the same text given to several setters in a row
+			if r.IntN(2) == 0 {
+				cs.Input, cs.HasBase = core.S(gen.StartURL(r)), false
+			}
+			cs.Ops = genHistory(r, 5, histKinds{setters: true, resolve: true, clone: true})
+			if len(cs.Ops) > 1 && r.IntN(2) == 0 {
+				v := gen.Pick(r, []string{"a b:", " x", "a\tb", "é<>", "%zz", "h ost", "1 2", "[::1", "a|b:", "\"q\""})
+				for j := range cs.Ops {
+					if len(cs.Ops[j].Args) == 1 && obs.IsSetter(cs.Ops[j].Name) {
+						cs.Ops[j].Args = []core.S{core.S(v)}
+					}
+				}
+			}
+		}
 		ctx.Begin(cs)
 		m.Exec(ctx, cs)
 	}
@@ -292,6 +308,22 @@ func (m c15) Exec(ctx *core.Ctx, cs *core.Case) {
 		if ok0 {
 			if a, b := obs.Take(u0), obs.Take(u1); a != b {
 				ctx.Violate("turning on validation-error reporting changed the result (under a configuration)", a.Href, b.Href, strings.Join(cs.Config, ",")+": "+strings.Join(obs.Diff(a, b), "; "))
+				return
+			}
+			for i, op := range cs.Ops {
+				var q0, q1 *core.Panic
+				q0 = ctx.Call(opBytes(op)+len(in)+len(base)+256, func() { u0 = applyOp(u0, op) })
+				q1 = ctx.Call(opBytes(op)+len(in)+len(base)+256, func() { u1 = applyOp(u1, op) })
+				if q0 != nil || q1 != nil {
+					ctx.Count("panics(C02)")
+					return
+				}
+				ctx.Count("report_neutral_history_steps")
+				if a, b := obs.Take(u0), obs.Take(u1); a != b {
+					ctx.Violate("turning on validation-error reporting changed what a later operation does (setter history under a configuration)", a.Href, b.Href,
+						fmt.Sprintf("%s: step %d %s: %s", strings.Join(cs.Config, ","), i, op.Name, strings.Join(obs.Diff(a, b), "; ")))
+					return
+				}
 			}
 		}
 		return
